@@ -158,7 +158,25 @@ func droppedOn(fn *ssa.Function, ev ssa.Value) *DroppedError {
 			}
 		}
 		first = false
-		for _, s := range n.b.Succs {
+		var ifi *ssa.If
+		if len(n.b.Instrs) > 0 && len(n.b.Succs) == 2 && n.b.Succs[0] != n.b.Succs[1] {
+			ifi, _ = n.b.Instrs[len(n.b.Instrs)-1].(*ssa.If)
+		}
+		var sfx []*ssa.BasicBlock
+		if ifi != nil {
+			for x := n; x != nil && len(sfx) < cutK; x = x.prev {
+				sfx = append([]*ssa.BasicBlock{x.b}, sfx...)
+			}
+		}
+		for si, s := range n.b.Succs {
+			// an edge this very path rules out (a flag phi that took the other constant, a comparison
+			// already decided the other way)
+			if ifi != nil {
+				fs, feasible := FactsOnPath(ifi.Cond, si == 0, sfx)
+				if !feasible || contradictsPath(fs, sfx) {
+					continue
+				}
+			}
 			// phi handling in s
 			carrier := n.carrier
 			overwritten := false
